@@ -504,3 +504,92 @@ Proof.
     pose proof (find_shape_nodup c _ Hnd Hin) as Hf. cbn [shape_name] in Hf. rewrite Hf.
     apply IH; try assumption. eapply wf_sub_comp, Hall, Hin.
 Qed.
+
+(* ---------------------------------------------------------------------------------------- *)
+(* logger points: the received logger does not depend on the embedding arrangement *)
+
+Lemma map_obs_filter_gen (h : sfield -> bool) :
+  (forall a b, sf_obs a = sf_obs b -> h a = h b) ->
+  forall l1 l2, map sf_obs l1 = map sf_obs l2 ->
+  map sf_obs (filter h l1) = map sf_obs (filter h l2).
+Proof.
+  intros Hh. induction l1 as [|a r IH]; intros [|b r'] H; try discriminate; [reflexivity|].
+  cbn [map] in H. apply cons_eq_inv in H. destruct H as [Hab Hr]. cbn [filter].
+  rewrite (Hh a b Hab). destruct (h b); cbn [map]; [rewrite Hab; f_equal|]; apply IH, Hr.
+Qed.
+
+Lemma logger_fields_flatten c :
+  map sf_obs (logger_fields c) = map sf_obs (logger_fields (flatten_all c)).
+Proof.
+  unfold logger_fields. apply map_obs_filter_gen; [|apply scan_flatten].
+  intros a b Hab. apply sf_obs_inv in Hab. destruct Hab as (_ & _ & Hk & _). rewrite Hk. reflexivity.
+Qed.
+
+Lemma logger_points_flatten tp c :
+  map pr_obs (logger_points tp c) = map pr_obs (logger_points tp (flatten_all c)).
+Proof. unfold logger_points. apply properties_obs_ext, logger_fields_flatten. Qed.
+
+Lemma pr_obs_inv a b : pr_obs a = pr_obs b ->
+  pr_field a = pr_field b /\ pr_tag a = pr_tag b /\ pr_val a = pr_val b /\ pr_args a = pr_args b.
+Proof. unfold pr_obs. intros H. inversion H. repeat split; assumption. Qed.
+
+(* a point that does not ask for its position: the prefix is a function of (component, tag value) *)
+Lemma logger_pref_free comp named pr :
+  position_free pr = true -> logger_pref comp named pr = logger_direct comp (pr_val pr).
+Proof.
+  unfold position_free, logger_pref. destruct (wants_position (pr_val pr) (pr_args pr)); [discriminate|reflexivity].
+Qed.
+
+Lemma logger_obs_ext comp named named' l1 : forall l2,
+  map pr_obs l1 = map pr_obs l2 ->
+  map (logger_obs comp named) (filter position_free l1) =
+  map (logger_obs comp named') (filter position_free l2).
+Proof.
+  induction l1 as [|a r IH]; intros [|b r'] H; try discriminate; [reflexivity|].
+  cbn [map] in H. apply cons_eq_inv in H. destruct H as [Hab Hr]. cbn [filter].
+  apply pr_obs_inv in Hab. destruct Hab as (Hf & Ht & Hv & Ha).
+  assert (Hp : position_free a = position_free b) by (unfold position_free; rewrite Hv, Ha; reflexivity).
+  rewrite Hp. destruct (position_free b) eqn:Eb; [|apply IH, Hr].
+  cbn [map]. f_equal; [|apply IH, Hr].
+  unfold logger_obs. rewrite !logger_pref_free by (first [exact Eb|exact Hp]). rewrite Hf, Hv, Ha. reflexivity.
+Qed.
+
+Lemma logger_flatten comp named named' tp c :
+  map (logger_obs comp named) (filter position_free (logger_points tp c)) =
+  map (logger_obs comp named') (filter position_free (logger_points tp (flatten_all c))).
+Proof. apply logger_obs_ext, logger_points_flatten. Qed.
+
+Lemma in_filter_map_sub {A B} (f : A -> option B) (h : A -> bool) l y :
+  In y (filter_map f (filter h l)) -> In y (filter_map f l).
+Proof.
+  rewrite !in_filter_map. intros (x & Hin & Hx). apply filter_In in Hin. exists x. split; [apply Hin|exact Hx].
+Qed.
+
+Lemma logger_points_sub tp c pr : In pr (logger_points tp c) -> In pr (properties_of tp c).
+Proof.
+  unfold logger_points, properties_of, logger_fields. rewrite !in_map_iff.
+  intros (q & Hq & Hin). exists q. split; [exact Hq|]. eapply in_filter_map_sub, Hin.
+Qed.
+
+(* without entered structs every reached field is declared directly on the component *)
+Lemma reaches_flat c p s :
+  Forall (fun x => is_entered x = false) c -> reaches c p s -> p = [shape_name s].
+Proof.
+  intros Hc Hr. destruct Hr as [c s Hin|c n e imp fs p s Hin Hr]; [reflexivity|].
+  rewrite Forall_forall in Hc. specialize (Hc _ Hin). discriminate Hc.
+Qed.
+
+(* declared directly on the component, every logger point - `embed` or not - gets the direct prefix *)
+Lemma logger_pref_direct comp named tp c pr :
+  Forall (fun x => is_entered x = false) c ->
+  In pr (logger_points tp c) -> logger_pref comp named pr = logger_direct comp (pr_val pr).
+Proof.
+  intros Hc Hin. apply logger_points_sub, processor_gets_exactly in Hin.
+  destruct Hin as (p & s & v & args & Hr & _ & _ & _ & ->).
+  apply (reaches_flat c p s Hc) in Hr. subst p.
+  unfold logger_pref, holder_string, logger_direct, wants_position. cbn [pr_val pr_args pr_path removelast map String.concat].
+  destruct (is_empty v) eqn:Ev; cbn [andb]; [|reflexivity].
+  destruct (has_arg "Embed" (with_required tp args)); [|reflexivity].
+  destruct comp; [reflexivity|]. cbn [String.append]. f_equal.
+  clear. induction comp as [|ch r IH]; [reflexivity|]. cbn [String.append]. rewrite IH. reflexivity.
+Qed.
